@@ -1,4 +1,6 @@
 import PySMT.Proofs.WalkerMore
+import PySMT.Proofs.WalkerFaults
+import PySMT.Proofs.WalkerInstSubst
 import PySMT.Proofs.C15ParserSession
 
 /-!
@@ -14,6 +16,11 @@ budget of the failing call: all universally quantified.
 The SMT-LIB parser objects (`get_script`, `get_command_generator`: cache, journal, `_reset`, `rollback`) are the second
 part of this file (after `end PySMT.C15`, model `Impl/ParserSession.lean`). Not covered by theorems (covered by the
 correspondence run only): scripts and solver objects.
+
+Side effects of callbacks are outside the walker model: nodes created by a failed call stay in the formula manager
+and `_next_free_id` / `_fresh_guess` have advanced (ids decide the argument order of the simplifier's set-based rules,
+fresh names shift): after a failing call results are equal up to the order of commutative arguments and the names of
+fresh symbols, not "exactly" (findings F43, F47; the correspondence run compares modulo both).
 -/
 
 namespace PySMT.C15
@@ -55,6 +62,52 @@ theorem probe_after_failure_eq (g : Graph N) (d : N → Bool) (f0 : N → List R
       = (walks g d (fun _ => f0) inval shortcut fuel qs s).1 :=
   Walker.probe_after_failure_eq g d f0 fbad hbad inval shortcut fuelBad fuel b V hfuel qs hV s hi
 
+/-- **Crash points outside the callbacks.**  `_get_children` and `_get_key` can raise too (`DagWalker._get_key`:
+    `NotImplementedError` for keyword arguments without an override; the assertions of `PolarityCNFizer._get_children`
+    / `NNFizer._get_children`): after `(True, formula)` was pushed, after some of the children were pushed, or right
+    before the callback (`Faults`, `walkF`, `faultAt` in `Impl/Walker.lean`; `walkF … Faults.none = walk`).  Whatever
+    raised and wherever, the walker is left idle with a correct memo, blank for a one-shot walker. -/
+theorem walk_fail_restores_anywhere (g : Graph N) (d : N → Bool) (f : List N → N → List R → Except E R)
+    (f0 : N → List R → Except E R) (hf : Refines f f0) (flt : Faults N E) (inval shortcut : Bool) (fuel : Nat)
+    (n : N) (s : WState M N) (hi : Idle g d f0 s) :
+    Idle g d f0 (walkF g d f flt inval shortcut fuel n s).2 ∧
+    (inval = true → (if shortcut then look s.memo n else none) = none →
+      Blank (walkF g d f flt inval shortcut fuel n s).2) :=
+  Walker.walkF_post g d f f0 hf flt inval shortcut fuel n s hi
+
+theorem probe_after_failure_anywhere (g : Graph N) (d : N → Bool) (f0 : N → List R → Except E R)
+    (fbad : List N → N → List R → Except E R) (hbad : Refines fbad f0) (flt : Faults N E) (inval shortcut : Bool)
+    (fuelBad fuel : Nat) (b : N) (V : List N) (hfuel : 2 * cost g V + 2 ≤ fuel) (qs : List N)
+    (hV : ∀ q ∈ qs, Covers g d q V) (s : WState M N) (hi : Idle g d f0 s) :
+    (walks g d (fun _ => f0) inval shortcut fuel qs (walkF g d fbad flt inval shortcut fuelBad b s).2).1
+      = (walks g d (fun _ => f0) inval shortcut fuel qs s).1 :=
+  Walker.probe_after_failure_anywhere g d f0 fbad hbad flt inval shortcut fuelBad fuel b V hfuel qs hV s hi
+
+/-- **The failing call and the probes have different callbacks** (one-shot walkers: `env.substituter`).  After a call
+    with ARBITRARY callbacks `fbad` (no `Refines` needed: nothing of it survives), every later sequence of calls, each
+    with its own callbacks, returns exactly what it returns on a newly made walker. -/
+theorem probe_after_failure_any_callback (g : Graph N) (d : N → Bool) (fbad : List N → N → List R → Except E R)
+    (shortcut : Bool) (fuelBad fuel : Nat) (b : N) (V : List N) (hfuel : 2 * cost g V + 2 ≤ fuel)
+    (qs : List ((N → List R → Except E R) × N)) (hV : ∀ q ∈ qs, Covers g d q.2 V) (s : WState M N) (hb : Blank s) :
+    (walksF g d true shortcut fuel (qs.map (fun q => ((fun _ => q.1 : List N → N → List R → Except E R), q.2)))
+        (walk g d fbad true shortcut fuelBad b s).2).1
+      = (walksF g d true shortcut fuel (qs.map (fun q => ((fun _ => q.1 : List N → N → List R → Except E R), q.2)))
+        (WState.init : WState M N)).1 :=
+  Walker.probe_after_failure_any_callback g d fbad shortcut fuelBad fuel b V hfuel qs hV s hb
+
+/-- The scenario of the property text: an ill-typed (or otherwise failing) `substitute` on the environment's
+    substituter, then substitutions with other maps: they return `substG … σᵢ tᵢ`, as on a new substituter.
+    `_partial`: as `C14.substitute_walk_eq_partial` (the nested sub-substituter at a quantifier is the callback). -/
+theorem probe_after_failed_substitute_partial {M E : Type} [MemoLike M Term Term] [LawfulMemo M Term Term]
+    (ms : Bool) (h : Subst.FnHandler) (fbad : List Term → Term → List Term → Except E Term) (shortcut : Bool)
+    (fuelBad fuel : Nat) (b : Term) (qs : List (Subst.TMap × Term)) (hfuel : ∀ q ∈ qs, dagBound q.2 ≤ fuel)
+    (s : WState M Term) (hb : Blank s) :
+    (walksF termGraph (fun n => n.op.isQuantifier) true shortcut fuel
+        (qs.map (fun q => ((fun _ => cbOf (E := E) (substCb ms h q.1)), q.2)))
+        (walk termGraph (fun n => n.op.isQuantifier) fbad true shortcut fuelBad b s).2).1
+      = qs.map (fun q => WOut.ok (Subst.substG ms h q.1 q.2)) :=
+  Walker.probe_after_failed_substitute_partial ms h fbad shortcut fuelBad fuel b qs hfuel s hb
+
 /-- `FormulaManager.create_node` inserts the new content into `formulae` *before* type checking it.  When the type
     check fails the entry stays (`x = c`), but it is unobservable: every later `create_node q` returns what it returns
     without the failing call, and `create_node c` itself -- the only way to reach the stale entry -- fails again with
@@ -90,6 +143,12 @@ example : (walk dag (fun _ => false) (cb (some 1) []) false true 18 4 fresh).2.m
 -- what the unrepaired code left behind (the loop's state at the moment of the exception)
 example : (iter dag (fun _ => false) (cb (some 1) []) 18 (root 4 fresh)).state.stack
     = [(true, 2), (false, 2), (true, 3), (true, 4)] := by decide
+-- a crash point outside the callbacks: `_get_children(2)` raises while node 4 is walked; the walker is idle again
+example : (walkF dag (fun _ => false) (cb none []) ⟨fun x => if x = 2 then some 2 else none, fun _ => none⟩
+            false true 18 4 fresh).1 = .raise (.cb 2) := by decide
+example : (walkF dag (fun _ => false) (cb none []) ⟨fun x => if x = 2 then some 2 else none, fun _ => none⟩
+            false true 18 4 fresh).2.stack = [] := by decide
+example : Blank fresh := blank_init
 -- a type checker for which node 3 is ill-typed: `create_node 3` fails, node 3 stays in the table
 def tc : Nat → List (Option Unit) → Except Nat (Option Unit) :=
   fun n args => .ok (if n = 3 ∨ args.contains none then none else some ())
@@ -134,6 +193,10 @@ model `Impl/Parser.lean` (C08): the state `St` of a parser object and of its env
   `(assert (forall ((w Int)) zz))` leaves `w : Int` in the formula manager, after which `(declare-fun w () Real)` is a type
   error; `failing_define_fun_advances_fresh_counter` is F43 itself. `parser_fail_reset_same_manager` is the restricted version:
   when the failing script left the manager as it found it, the twin equality holds.
+* Input of the model: `List Sexp`.  Malformed input BELOW the S-expression level -- unbalanced parentheses, end of file
+  inside a command, tokenizer errors, a failing `consume_closing` -- is not a crash point of the session model (the real
+  handlers consume tokens directly); those failures are covered by the correspondence run only (`garbage:*` command
+  shapes of `harness/props/c15.py`).
 * not restored by `rollback`, in the model as in the code (checked by running the real parser): `annots` (the annotations a
   failing command stored stay in `cache.annotations`; no call returns them — `get_script` hands out the store only after
   `_reset` and a complete successful reading) and `mgr` (above).
@@ -192,7 +255,9 @@ theorem command_fail_later_commands_pure (lc : Bool) (st : St) (c : Sexp) (e : E
   command_fail_probe_eq_pure lc st c e st' h hm ha cs
 
 /-- **After a failing `get_script`, `get_script` behaves as on a new parser object of the same environment**
-(outcome and state afterwards). -/
+(outcome and state afterwards).  The hypothesis `_hfail` is not used: the statement holds after anything, and it is
+DEFINITIONAL in the model -- `getScript` starts with `St.reset`, whose body is that of `newParser`; its content is that
+`parser.py` calls `self._reset()` first in `get_script` (checked against the source and by the correspondence run). -/
 theorem parser_fail_reset (lc : Bool) (st0 : St) (s₁ : List Sexp) (e : Err) (st₁ : St)
     (_hfail : getScript lc st0 s₁ = (.error e, st₁)) (s₂ : List Sexp) :
     getScript lc st₁ s₂ = getScript lc (newParser st₁.mgr) s₂ :=
